@@ -828,7 +828,7 @@ func faultsRun(args []string) int {
 		}
 	}
 	stViol, stRuns := fqStaleTick(8)
-	viol = append(stViol, viol...)
+	viol = append(append([]string{}, stViol...), viol...)
 	evals += stRuns
 	dist["plan"]["stale-timer-tick"] = stRuns
 	if len(viol) > 40 {
